@@ -484,11 +484,16 @@ check(
     rule=("Same gated machinery as C04 on fault-free scenarios {select, insert, streaming insert} x compression x telemetry x "
           "read timeout {3s, 50ms}: the context is cancelled (cancel()) or its deadline expires (virtual clock) at a "
           "rapid-drawn scheduler step 0..80, i.e. before/after every client write, server packet, callback and log point; "
-          "second property for cancellation during the handshake (Connect and Dial, server answering or silent). Distinct = "
+          "kinds: cancel(), deadline expiry, cancel() of a context that also has a far deadline. Second property: cancellation "
+          "during the handshake (Connect and Dial; server answering, silent, or no longer reading after its hello so that the "
+          "addendum write blocks). Third property (ungated): the server streams 1500 packets with gaps below the read timeout "
+          "and cancel() arrives from another goroutine or inside a callback. Distinct = "
           "hash of (scenario, kind, schedule). Non-trivial = the call failed because of the cancellation while at least one "
           "server packet was still to come."),
-    quick=[unit("client", "^TestC10", checks=4000, timeout=900)],
-    thorough=[unit("client", "^TestC10", checks=80000, timeout=8000, shards=16)],
+    quick=[unit("client", "^TestC10(Cancellation|HandshakeCancellation)", checks=4000, timeout=900),
+           unit("client", "^TestC10StreamingCancel", checks=600, timeout=900)],
+    thorough=[unit("client", "^TestC10(Cancellation|HandshakeCancellation)", checks=80000, timeout=8000, shards=12),
+              unit("client", "^TestC10StreamingCancel", checks=8000, timeout=8000, shards=4)],
     manifest=dict(
         text="Oracle per run: Do returns within readTimeout + 2s of the cancellation instant on the virtual clock; the error "
              "matches ctx.Err(); the client is closed and Close was called on the connection; the Cancel packet is judged per "
